@@ -340,7 +340,7 @@ abbrev RB (g : Cfg) (k : Nat) (N : Nat) (c : Conn) : Prop := GRes3 (SB g k) (AB 
 /-- **The handler has returned**: `close` of a request that has read its input to the end. -/
 theorem bdone {g : Cfg} {n k : Nat} (ok : BROK g n k) {c : Conn} {r0 r : AReq} {h h' : HState} {e' : Run.Env}
     {O1 : Bytes} {shown : List Bytes} (hph : c.phase = .handler r0 h)
-    (heq : handlerPoll (handlerFuel c.env r0) r0 h c.env = (r, h', e', .done (.ok g.st)))
+    (heq : handlerPoll ((handlerFuel c.env r0 + scriptOf c)) r0 h c.env = (r, h', e', .done (.ok g.st)))
     (hws : h'.writers = [none]) (hm : e'.mutex = none)
     (hlog : e'.tr.wlog = (g.L1 ++ O1) ++ streamRecords 6 g.p.id g.data)
     (hfin : REnd g.N r e'.tr.input) (hO : O1 ++ r.sp.output = g.Ob) (hseen : Seen g k shown e'.tr)
@@ -377,7 +377,7 @@ theorem bdone {g : Cfg} {n k : Nat} (ok : BROK g n k) {c : Conn} {r0 r : AReq} {
 theorem bwrite_out {g : Cfg} {n k : Nat} (ok : BROK g n k) {c : Conn} {r0 r : AReq} {h : HState} {e0 : Run.Env}
     {O1 : Bytes} {shown : List Bytes} (hph : c.phase = .handler r0 h)
     {out : AReq × HState × Run.Env × HRes}
-    (heq : handlerPoll (handlerFuel c.env r0) r0 h c.env = out)
+    (heq : handlerPoll ((handlerFuel c.env r0 + scriptOf c)) r0 h c.env = out)
     (hw : WOutG g.p.id g.data g.st (g.L1 ++ O1) r e0 out)
     (hts0 : TStep c.env.tr e0.tr) (hsg0 : e0.segs = c.env.segs)
     (hfin : REnd g.N r e0.tr.input) (hO : O1 ++ r.sp.output = g.Ob) (hseen : Seen g k shown e0.tr)
@@ -406,7 +406,7 @@ theorem hb_poll {g : Cfg} {n k : Nat} (ok : BROK g n k) {c : Conn} (h : HB g k c
   have hrole : r.sp.request.role = 1 := by
     obtain ⟨⟨G, hi⟩, _⟩ := hs
     rw [hi.req]; exact ok.role
-  rcases rounds_run hK (L := g.L1) (P := []) k ok.hk (.fill :: oscript g.data g.st) [] true n' (handlerFuel c.env r) r
+  rcases rounds_run hK (L := g.L1) (P := []) k ok.hk (.fill :: oscript g.data g.st) [] true n' ((handlerFuel c.env r + scriptOf c)) r
       c.env handed dO shown (by omega) hb hs (by show g.content.length ≤ _; exact hlen) hsh hevs with
     ⟨n2, r', e', handed', dO', shown', a0, a1, a2, a3, a4, a5, a6, a7, a8, a9⟩ |
     ⟨r', e', dO', shown', f', b1, b2, b3, b4, b5, b6, b7⟩
@@ -456,7 +456,7 @@ theorem hwb_poll {g : Cfg} {n k : Nat} (ok : BROK g n k) {c : Conn} (h : HWb g k
   obtain ⟨r, h, O1, shown, hph, hw, hfin, hO, hseen, hb, hstop, hev, hsc⟩ := h
   have hfuel := handlerFuel_ge c.env r
   have hfu := ok.hfu
-  have hout := write_phaseG (r := r) hw hb (fuel := handlerFuel c.env r) (by omega)
+  have hout := write_phaseG (r := r) hw hb (fuel := (handlerFuel c.env r + scriptOf c)) (by omega)
   exact bwrite_out ok (r := r) (e0 := c.env) hph rfl hout (.refl _) rfl hfin hO hseen hb hstop hev hsc
 
 /-- the first poll of the handler -/
